@@ -36,7 +36,21 @@ pub struct Hit {
     pub frames: Vec<String>,
 }
 
+pub const MAX_LONG: usize = 8;
+pub const LONG_BYTES: usize = 256;
+
+#[derive(Clone, Copy)]
+pub struct LongPattern {
+    pub len: usize,
+    pub bytes: [u8; LONG_BYTES],
+    pub kind: u8,
+}
+
+const EMPTY_LONG: LongPattern = LongPattern { len: 0, bytes: [0u8; LONG_BYTES], kind: 0 };
+
 thread_local! {
+    static NLONG: Cell<usize> = const { Cell::new(0) };
+    static LONGS: RefCell<[LongPattern; MAX_LONG]> = const { RefCell::new([EMPTY_LONG; MAX_LONG]) };
     static IN_HOOK: Cell<bool> = const { Cell::new(false) };
     static ARMED: Cell<bool> = const { Cell::new(false) };
     static NPAT: Cell<usize> = const { Cell::new(0) };
@@ -129,6 +143,19 @@ unsafe fn scan(ptr: *mut u8, size: usize, via_realloc: bool) {
             }
         }
     });
+    if hit.is_none() {
+        let nl = NLONG.try_with(|n| n.get()).unwrap_or(0);
+        let _ = LONGS.try_with(|p| {
+            if let Ok(p) = p.try_borrow() {
+                for (i, pat) in p.iter().take(nl).enumerate() {
+                    if find(block, &pat.bytes[..pat.len]) {
+                        hit = Some((1000 + i, pat.kind));
+                        break;
+                    }
+                }
+            }
+        });
+    }
     if let Some((idx, kind)) = hit {
         let bt = std::backtrace::Backtrace::force_capture().to_string();
         let frames: Vec<String> = bt
@@ -190,7 +217,25 @@ unsafe impl GlobalAlloc for SimAlloc {
 
 // ---- control surface (harness side) ----------------------------------------------------------
 
+/// Register a long byte image (up to 256 bytes), e.g. the scalar image of a bit decomposition.
+pub fn register_long(bytes: &[u8], kind: u8) -> bool {
+    assert!(bytes.len() >= 64 && bytes.len() <= LONG_BYTES);
+    let n = NLONG.with(|n| n.get());
+    if n >= MAX_LONG {
+        return false;
+    }
+    LONGS.with(|p| {
+        let mut p = p.borrow_mut();
+        let mut b = [0u8; LONG_BYTES];
+        b[..bytes.len()].copy_from_slice(bytes);
+        p[n] = LongPattern { len: bytes.len(), bytes: b, kind };
+    });
+    NLONG.with(|c| c.set(n + 1));
+    true
+}
+
 pub fn clear_patterns() {
+    NLONG.with(|n| n.set(0));
     NPAT.with(|n| n.set(0));
     HITS.with(|h| h.borrow_mut().clear());
 }
